@@ -37,6 +37,33 @@ var c13PhPool = []string{"{$rec.a}", "{$d.a}", "{$a}", "{$a_1}", "{$a_2}", "{$re
 	"{length(keys(['b': 1, 'a': $a, 'c': 3]))}", "{length(keys(['c': 3, 'a': $a, 'b': 1]))}", "{$rec.c[0]}", "{$d.c.0}",
 	"<a href=\"x\">", "</a>", "<br/>", "<b>", "</b>", "<a href=\"y\">", "{G_INT}", "{$a_1|escapeUri}", "{$b|truncate:3}"}
 
+// c13Family returns n distinct identifiers related to stem by case, prefix,
+// separator and digits.  Wherever a name becomes the key of a Go map, is sorted
+// or is compared (template names and import lines, map literal keys, globals,
+// placeholder base names) the generator uses such families, so that an order or
+// an equality that is not the plain byte-wise one shows.
+func c13Family(r *hx.Rand, stem string, n int) []string {
+	up := strings.ToUpper(stem[:1]) + stem[1:]
+	mixed := stem[:1] + strings.ToUpper(stem[1:2]) + stem[2:]
+	all := []string{stem, up, strings.ToUpper(stem), mixed, stem + "1", stem + "_1", stem + "2", stem + "_2", stem[:len(stem)-1], stem + "s",
+		stem + "_x", stem + "X", up + "1", stem + "__x", stem + "_X"}
+	for i := len(all) - 1; i > 0; i-- {
+		j := r.Intn(i + 1)
+		all[i], all[j] = all[j], all[i]
+	}
+	seen := map[string]bool{}
+	var res []string
+	for _, x := range all {
+		if !seen[x] && len(res) < n {
+			seen[x] = true
+			res = append(res, x)
+		}
+	}
+	return res
+}
+
+var c13MsgVars = []string{"a1", "A", "aB", "a_b", "ab", "fooBar", "foo_bar", "fooBar1", "foo_bar_1"}
+
 var c13TextPool = []string{"Hello ", " and ", "you have ", " items", ".", " - ", "é ", "x"}
 
 type c13gen struct {
@@ -44,6 +71,7 @@ type c13gen struct {
 	hist  map[string]int
 	ctr   int
 	useG  bool
+	gFam  []string
 	gDefs []c13Global
 }
 
@@ -59,6 +87,11 @@ func (g *c13gen) msgParts(n int) string {
 		p := g.r.Pick(c13PhPool)
 		for p == "{G_INT}" && !g.useG {
 			p = g.r.Pick(c13PhPool)
+		}
+		if g.r.Chance(35) {
+			// variables whose base names collide with each other and with suffixed names
+			v := g.r.Pick(c13MsgVars)
+			p = g.r.Pick([]string{"{$" + v + "}", "{$rec." + v + "}", "{$d." + v + "}", "{$" + v + "|escapeUri}"})
 		}
 		sb.WriteString(p)
 	}
@@ -88,11 +121,11 @@ func (g *c13gen) msg() string {
 }
 
 // extras builds the extras file.  others: templates of the other files.
-func (g *c13gen) extras(others []string) srcFile {
+func (g *c13gen) extras(others, libs []string) srcFile {
 	var sb strings.Builder
 	sb.WriteString("{namespace xtra}\n\n")
 	// leaf templates used by the injected call errors and by .imports
-	sb.WriteString("/** @param? a */\n{template .leaf}\n{$a ?: 0}\n{/template}\n\n")
+	sb.WriteString("/** @param? a */\n{template .leaf" + g.r.Pick([]string{"", "", ` private="true"`}) + "}\n{$a ?: 0}\n{/template}\n\n")
 	sb.WriteString("/** @param a */\n{template .needs}\n{$a}\n{/template}\n\n")
 	// imports
 	g.feat("imports")
@@ -100,6 +133,11 @@ func (g *c13gen) extras(others []string) srcFile {
 	nCalls := 2 + g.r.Intn(3)
 	for i := 0; i < nCalls && len(others) > 0; i++ {
 		sb.WriteString("{call " + others[g.r.Intn(len(others))] + " data=\"$d\" /}")
+	}
+	for _, t := range libs {
+		if g.r.Chance(60) {
+			sb.WriteString("{call " + t + " /}")
+		}
 	}
 	sb.WriteString("{call .leaf data=\"all\" /}{if $d and $s and $l and $f}{/if}")
 	uses := []string{"{$s|truncate:5}", "{$s|escapeUri}", "{$s|insertWordBreaks:3}", "{$s|changeNewlineToBr}", "{$s|escapeJsString}", "{length($l)}", "{round($f)}",
@@ -109,8 +147,16 @@ func (g *c13gen) extras(others []string) srcFile {
 	}
 	sb.WriteString("\n{/template}\n\n")
 	// messages
-	sb.WriteString("/**\n * @param rec\n * @param d\n * @param a\n * @param a_1\n * @param a_2\n * @param b\n */\n{template .msgs}\n")
-	sb.WriteString("{if $rec and $d and $a and $a_1 and $a_2 and $b}{/if}")
+	sb.WriteString("/**\n * @param rec\n * @param d\n * @param a\n * @param a_1\n * @param a_2\n * @param b\n")
+	for _, v := range c13MsgVars {
+		sb.WriteString(" * @param " + v + "\n")
+	}
+	sb.WriteString(" */\n{template .msgs}\n")
+	sb.WriteString("{if $rec and $d and $a and $a_1 and $a_2 and $b")
+	for _, v := range c13MsgVars {
+		sb.WriteString(" and $" + v)
+	}
+	sb.WriteString("}{/if}")
 	for i := 0; i < 1+g.r.Intn(3); i++ {
 		sb.WriteString(g.msg() + "\n")
 	}
@@ -120,15 +166,57 @@ func (g *c13gen) extras(others []string) srcFile {
 	sb.WriteString("/** @param a */\n{template .maps}\n")
 	sb.WriteString("{let $m: ['z': $a, 'y': 2, 'x': ['q': 1, 'p': [1, 2], 'o': ['b': 2, 'a': 1]], 'w': 's', 'v': $a + 1]/}")
 	sb.WriteString("{$m.z}{keys($m)}{$m.x.q}{$m|json}{keys($m.x)}{$m.x.o|json}{$m}")
+	var items []string
+	for i, k := range c13Family(g.r, "key", 3+g.r.Intn(5)) {
+		items = append(items, "'"+k+"': "+g.r.Pick([]string{fmt.Sprint(i), "$a", "'" + k + "'", "$a + " + fmt.Sprint(i)}))
+	}
+	sb.WriteString("{let $f: [" + strings.Join(items, ", ") + "]/}{$f}{keys($f)}{$f|json}")
 	sb.WriteString("\n{/template}\n\n")
 	// globals
 	if g.useG {
 		g.feat("globals")
 		sb.WriteString("/** */\n{template .globals}\n")
 		sb.WriteString("{let $g: ['k2': G_STR, 'k1': G_INT, 'k3': app.NAME, 'k0': G_BOOL]/}{$g.k1}{G_INT + 1}{G_STR}{app.NAME}{G_FLOAT}{G_NULL ?: 'n'}{$g|json}")
+		for _, n := range g.gFam {
+			sb.WriteString("{" + n + " + 1}")
+		}
 		sb.WriteString("\n{/template}\n\n")
 	}
 	return srcFile{Name: "extras.soy", Text: sb.String()}
+}
+
+// libs builds one or two library files: namespaces and template names are
+// taken from identifier families (lib / Lib, item / Item / item1 / item_1 ...),
+// two files may share a namespace (with different template names), some
+// templates are private.  Every full name is defined once.
+func (g *c13gen) libs() (files []srcFile, names []string) {
+	g.feat("libs")
+	nFiles := 1
+	if g.r.Chance(30) {
+		nFiles = 2
+	}
+	nss := c13Family(g.r, "lib", 1+g.r.Intn(2))
+	tmpls := c13Family(g.r, "item", 2+g.r.Intn(4))
+	used := map[string]bool{}
+	for fi := 0; fi < nFiles; fi++ {
+		ns := nss[fi%len(nss)]
+		var sb strings.Builder
+		sb.WriteString("{namespace " + ns + "}\n\n")
+		any := false
+		for _, t := range tmpls {
+			if used[ns+"."+t] || (nFiles == 2 && g.r.Bool()) {
+				continue
+			}
+			used[ns+"."+t] = true
+			any = true
+			names = append(names, ns+"."+t)
+			sb.WriteString("/** */\n{template ." + t + g.r.Pick([]string{"", "", ` private="true"`}) + "}\n" + ns + "." + t + fmt.Sprintf(" of lib%d", fi) + "\n{/template}\n\n")
+		}
+		if any {
+			files = append(files, srcFile{Name: fmt.Sprintf("lib%d.soy", fi), Text: sb.String()})
+		}
+	}
+	return files, names
 }
 
 func c13Gen(r *hx.Rand, hist map[string]int) c13Case {
@@ -146,10 +234,19 @@ func c13Gen(r *hx.Rand, hist map[string]int) c13Case {
 		others = append(others, names...)
 	}
 	g.useG = r.Chance(60)
-	c.Files = append(files, g.extras(others))
+	libFiles, libNames := g.libs()
+	g.gFam = c13Family(r, "gv", 2+r.Intn(3))
+	c.Files = append(append(files, libFiles...), g.extras(others, libNames))
 	if g.useG {
 		all := []c13Global{{"G_INT", fmt.Sprint(r.Intn(100))}, {"G_STR", soyStr(r.Pick(strPool))}, {"app.NAME", "'app'"}, {"G_BOOL", r.Pick([]string{"true", "false"})},
 			{"G_FLOAT", r.Pick([]string{"0.5", "2.25", "10.0"})}, {"G_NULL", "null"}, {"UNUSED_1", "1"}, {"UNUSED_2", "'two'"}}
+		for i, n := range g.gFam {
+			all = append(all, c13Global{n, fmt.Sprint(100 + i)})
+		}
+		for i := len(all) - 1; i > 0; i-- {
+			j := r.Intn(i + 1)
+			all[i], all[j] = all[j], all[i]
+		}
 		// split over one or two maps (disjoint)
 		if r.Bool() {
 			c.Globals = [][]c13Global{all}
@@ -207,7 +304,7 @@ func (g *c13gen) inject(c *c13Case, nsOf map[int]string) {
 		full := cands[g.r.Intn(len(cands))]
 		dot := strings.LastIndex(full, ".")
 		name := "dup" + id + ".soy"
-		c.Files = append(c.Files, srcFile{Name: name, Text: "{namespace " + full[:dot] + "}\n\n/** */\n{template " + full[dot:] + "}\nduplicate " + id + "\n{/template}\n"})
+		c.Files = append(c.Files, srcFile{Name: name, Text: "{namespace " + full[:dot] + "}\n\n/** */\n{template " + full[dot:] + g.r.Pick([]string{"", ` private="true"`}) + "}\nduplicate " + id + "\n{/template}\n"})
 		c.Errors = append(c.Errors, "duplicate-template@"+name)
 		g.feat("err:duplicate-template")
 	case 4, 5:
